@@ -130,7 +130,7 @@ func cmdCheck(args []string) int {
 			take := false
 			if k1Kinds[o.Kind] {
 				take = hasProp(spec.NoPanic, P)
-			} else if o.Kind == "precondition" {
+			} else if o.Kind == "precondition" || o.Kind == "closure-precondition" {
 				take = true
 			} else if strings.HasPrefix(o.Kind, "autoinv") {
 				take = true
